@@ -46,6 +46,17 @@ def _race_pass(ctx):
         p.stdout = outs
         blocks = [b for b in p.stdout.split("==================") if "DATA RACE" in b]
         maps = [b for b in blocks if re.search(r"(runtime|reflect)\.map(access|assign|iter|delete|len)", b)]
+        # A map that is WRITTEN only while it is being built (scope snapshot in buildVsSnapshot /
+        # buildGlobalVsSnapshot / ToJSONObject, under the debugger lock) and read later through a list
+        # Describe handed out is a publication race, not a table changing under a reader: the Go runtime
+        # cannot abort on it. Counted and noted (fixes/C16-describe-copies-snapshots.patch), not a violation.
+        def publication(b):
+            w = b.split("Previous write")[1] if "Previous write" in b else (b.split("Previous read")[0] if "Write at" in b.split("Previous")[0] else "")
+            w = w.split("Goroutine")[0]
+            return bool(re.search(r"buildVsSnapshot|buildGlobalVsSnapshot|ToJSONObject", w))
+        pub = [b for b in maps if publication(b)]
+        maps = [b for b in maps if not publication(b)]
+        res["snapshot_publication_races"] = len(pub)
         res.update(ran=True, data_races=len(blocks), map_races=len(maps), first=maps[0].strip()[:3000] if maps else "",
                    result=[l for l in p.stdout.splitlines() if l.startswith("R:")][:2])
     except Exception as e:  # the pass must not take the check down
@@ -140,7 +151,10 @@ def run(ctx):
     if getattr(ctx, "race_thread", None):
         ctx.race_thread.join()
         r = ctx.race_result
-        ctx.coverage["race_pass"] = {k: r.get(k) for k in ("ran", "data_races", "map_races", "result", "error") if k in r}
+        ctx.coverage["race_pass"] = {k: r.get(k) for k in ("ran", "data_races", "map_races", "snapshot_publication_races", "result", "error") if k in r}
+        if r.get("snapshot_publication_races"):
+            ctx.notes.append(f"race pass: {r['snapshot_publication_races']} publication races on scope snapshots handed out by Describe "
+                             "(live lists; fixes/C16-describe-copies-snapshots.patch) - noted, cannot abort the process")
         if r.get("map_races"):
             rp = checklib.write_replay(ctx, "race", {"payload": "conc 1 0", "readable": "concurrent commands under the race detector",
                                                      "report": r["first"]},
